@@ -27,7 +27,7 @@ TLA_JAR = "/opt/veriftools/tla/tla2tools.jar:/opt/veriftools/tla/CommunityModule
 NCPU = os.cpu_count() or 4
 # blind-spot report (tools/covreport.py): build the driver and sfw with -cover and collect counters here
 COVER_DIR = os.environ.get("VERIF_COVER", "")
-COVER_PKGS = "./pkg/...,./internal/..."
+COVER_PKGS = "./..."
 COVER_FLAGS = ["-cover", "-coverpkg=" + COVER_PKGS] if COVER_DIR else []
 if COVER_DIR:
     os.makedirs(COVER_DIR, exist_ok=True)
@@ -90,6 +90,11 @@ class Ctx:
     def overlay(self):
         """Overlay mapping harness sources into /repo's module (nothing is written to /repo)."""
         rep = {}
+        if os.environ.get("VERIF_NO_OVERLAY"):     # covreport.py copied the harness into a scratch copy of the repo
+            path = os.path.join(self.scratch, "overlay.json")
+            with open(path, "w") as fh:
+                json.dump({"Replace": {}}, fh)
+            return path
         for f in sorted(glob.glob(os.path.join(HARNESS, "drv", "*.go"))):
             rep[os.path.join(REPO, "cmd", "verifdrv", os.path.basename(f))] = f
         for d in sorted(glob.glob(os.path.join(HARNESS, "inpkg", "*"))):
